@@ -633,6 +633,7 @@ def gen_history(rng, stream: str = "main", max_ops: int = 40) -> Hist:
 # ---------------------------------------------------------------------------
 
 _MOD_COUNTER = [0]
+_CLOSED = [0]
 
 
 class Sandbox:
@@ -669,6 +670,23 @@ class Sandbox:
         if self.mod_b is not None:
             self.mod_b.__dict__.clear()
         self.ns.clear()
+        # mashumaro memoises per-builder results in module-level lru_caches (get_field_default: unbounded), which keep every
+        # CodeBuilder - and through it every class of every history - alive: ~0.4 MB per history, > 1 GB in the thorough tier
+        try:
+            from mashumaro.core.meta.code.builder import CodeBuilder
+            for attr in ("get_field_default", "get_config"):
+                fn = getattr(CodeBuilder, attr, None)
+                if hasattr(fn, "cache_clear"):
+                    fn.cache_clear()
+            df = getattr(CodeBuilder, "dataclass_fields", None)
+            if isinstance(df, property) and hasattr(df.fget, "cache_clear"):
+                df.fget.cache_clear()
+        except Exception:  # noqa: BLE001 - housekeeping only
+            pass
+        _CLOSED[0] += 1
+        if _CLOSED[0] % 50 == 0:
+            import gc
+            gc.collect()
 
 
 def unwrap_exc(e: BaseException):
